@@ -34,7 +34,7 @@ def _def_line(path: str, fname: str) -> int:
 
 def _run_crosshair(path: str, line: int, timeout: float, extra_path: str) -> tuple[str, float]:
     env = dict(os.environ)
-    env["PYTHONPATH"] = f"/repo/src:{VERIF}:{extra_path}"
+    env["PYTHONPATH"] = f"{os.environ.get('VCHECK_REPO', '/repo')}/src:{VERIF}:{extra_path}"
     env["PYTHONHASHSEED"] = "0"
     t0 = time.time()
     try:
